@@ -60,7 +60,9 @@ def replay (h : List Note) (events : List String) : Option (St × Bool) :=
 
 def handleC18 : List String → String
   | ["dep", _label] => "same"   -- effectiveText: the open text is what is analysed (open_dependency_overrides_disk)
-  | ["run", hist, evs] =>
+  -- the last field lists the didSave notifications that were sent in between: they are not part of the history
+  -- (a save carries no text, changes nothing and logs no receive event)
+  | ["run", hist, evs, _saves] =>
     let h := (hist.splitOn ",").foldr (fun t acc => match acc, parseNote t with
       | some l, some n => some (n :: l) | _, _ => none) (some [])
     (match h with
